@@ -422,6 +422,13 @@ func idiomClosedOnCancel(j *CtxJudge, r *Resolver, s BSite, p *Prog) (bool, stri
 	if !dominatesInstr(goIn, call) {
 		return false, "the goroutine that closes the file on cancellation is not started on every path before the read"
 	}
+	// the descriptor must stay in the runtime poller: (*os.File).Fd() puts
+	// it into blocking mode, after which Close no longer interrupts a Read
+	if fileCell != nil {
+		if at := fdCalledOnCell(p, fileCell); at != "" {
+			return false, "(*os.File).Fd is called on the file being read (" + at + "): Fd() switches the descriptor to blocking mode, so closing it on cancellation no longer wakes the pending read on an idle pipe"
+		}
+	}
 	// the read error must end the loop
 	var errEx *ssa.Extract
 	if refs := call.Referrers(); refs != nil {
@@ -497,4 +504,63 @@ func lockHoldersDoNotBlock(c *Check) {
 	if bad == 0 {
 		c.OK("lock-holders-do-not-block", "tracker and health critical sections", "-", fmt.Sprintf("%d lock acquisitions walked, no blocking operation under any lock", acq))
 	}
+}
+
+
+// fdCalledOnCell: does any use of the file variable (also through
+// repository helpers it is passed to) call (*os.File).Fd?
+func fdCalledOnCell(p *Prog, cell *ssa.Alloc) string {
+	var vals []ssa.Value
+	r := NewResolver(p)
+	// loads of the cell in its function and in closures capturing it
+	var fns []*ssa.Function
+	fns = append(fns, cell.Parent())
+	fns = append(fns, cell.Parent().AnonFuncs...)
+	for _, fn := range fns {
+		allInstrs(fn, func(in ssa.Instruction) {
+			if u, ok := in.(*ssa.UnOp); ok && cellOf(r, u) == cell {
+				vals = append(vals, u)
+			}
+		})
+	}
+	seen := map[ssa.Value]bool{}
+	found := ""
+	var follow func(v ssa.Value, depth int)
+	follow = func(v ssa.Value, depth int) {
+		if seen[v] || depth > 4 || found != "" {
+			return
+		}
+		seen[v] = true
+		refs := v.Referrers()
+		if refs == nil {
+			return
+		}
+		for _, u := range *refs {
+			switch t := u.(type) {
+			case ssa.CallInstruction:
+				cc := t.Common()
+				sc := staticCallee(cc)
+				if sc == nil {
+					continue
+				}
+				if sc.String() == "(*os.File).Fd" || sc.String() == "(*os.File).SyscallConn" {
+					found = p.InstrPos(t)
+					return
+				}
+				if InRepo(sc) && sc.Blocks != nil {
+					for i, a := range cc.Args {
+						if a == v && i < len(sc.Params) {
+							follow(sc.Params[i], depth+1)
+						}
+					}
+				}
+			case *ssa.MakeInterface, *ssa.ChangeType, *ssa.Phi:
+				follow(u.(ssa.Value), depth)
+			}
+		}
+	}
+	for _, v := range vals {
+		follow(v, 0)
+	}
+	return found
 }
